@@ -25,7 +25,7 @@ ASSUMPTIONS = [
     'timestamps are set explicitly with os.utime(ns=...): no dependence on the wall clock or on timestamp granularity',
     'METADATA means (st_size, st_mtime_ns) as documented by the recorded comparison result',
 ]
-CFG = gen.cfg_with(probe_w=0, max_funcs=5, raise_w=0, nonjson_p=0.0, nowrite_p=0.0, catch_p=0.95, root_catch_p=0.97,
+CFG = gen.cfg_with(probe_w=0, max_funcs=5, raise_w=2, nonjson_p=0.0, nowrite_p=0.0, catch_p=0.95, root_catch_p=0.97,
                    query_kinds=['read_text', 'read_binary', 'declare_read', 'read_binary', 'declare_read', 'exists', 'get_size'],
                    chain_p=0.4, tree_queries=3, around_p=0.3, caches=['cache.gz'])
 ADOPT = {'C05.unjustified': 'C13.needless_reexecution', 'C05.unchanged_rebuild': 'C13.needless_reexecution',
